@@ -4,15 +4,25 @@ From God Require Export Base.Prelude C11.Model C11.Spec.
 From Coq Require Import Strings.String.
 Local Open Scope list_scope.
 
+(* conn.QueryXxx | conn.Prepare -> stmt.QueryXxx | Transact(s => s.QueryXxx) | Transact(s => s.Prepare -> stmt.QueryXxx) *)
+Inductive entry := VConn | VStmt | VTx | VTxStmt.
+Definition recv_of (v : entry) : recv :=
+  match v with VConn => RConn | VStmt | VTxStmt => RStmt | VTx => RTx end.
+Definition in_tx (v : entry) : bool := match v with VTx | VTxStmt => true | _ => false end.
+Definition no_faults : faults := mkfaults false false false.
+
 Inductive case :=
 | CTx (f : faults) (b : body)                        (* driver faults, transaction body script *)
       (o_res : option err)                           (* observed: error returned by Transact/TransactCtx *)
       (o_calls : list call)                          (* observed: calls that reached the SQL driver *)
       (o_escaped : option nat)                       (* observed: panic value that escaped, if any *)
-| COrm (rows_mode strict : bool) (sh : dshape)       (* QueryRow(s)[Partial], destination shape *)
+| COrm (via : entry) (m : meth) (sh : dshape)        (* entry point family, method, destination shape *)
        (cols : list string) (rows : list (list cell))(* the result set *)
-       (o_status : result unit)                      (* observed: nil / error class / panic *)
-       (o_dest : list dst).                          (* observed: destination, one entry per element *)
+       (o_status : result unit)                      (* observed: the query's nil / error class / panic *)
+       (o_dest : list dst)                           (* observed: destination, one entry per element *)
+       (o_tx : option (option err * list call * bool)).
+                                                     (* inside Transact: its result, begin/commit/rollback
+                                                        log, whether a panic escaped Transact *)
 
 Fixpoint all2 {A B} (f : A -> B -> bool) (l1 : list A) (l2 : list B) : bool :=
   match l1, l2 with
@@ -53,10 +63,17 @@ Definition model_ok (c : case) : bool :=
       let (r, cs) := transact_ctx true f b in
       option_eqb err_eqb r o_res && list_eqb call_eqb cs o_calls &&
       match o_escaped with None => true | Some _ => false end
-  | COrm rows_mode strict sh cols rows o_status o_dest =>
-      let (ds, st) := run_query rows_mode strict sh cols rows in
+  | COrm via m sh cols rows o_status o_dest o_tx =>
+      let (ds, st) := run_query (rows_mode m) (strict_flag (recv_of via) m) sh cols rows in
       status_eqb st o_status &&
-      match st with Panic => true | _ => list_eqb dst_eqb ds o_dest end
+      match st with Panic => true | _ => list_eqb dst_eqb ds o_dest end &&
+      match o_tx, in_tx via with
+      | None, false => true
+      | Some (r, cs, esc), true =>
+          let (r', cs') := transact_ctx true no_faults (body_of_query st) in
+          option_eqb err_eqb r' r && list_eqb call_eqb cs' cs && negb esc
+      | _, _ => false
+      end
   end.
 
 (* --- the property, on the observation alone --- *)
@@ -119,5 +136,15 @@ Definition spec_orm (rows_mode strict : bool) (sh : dshape) (cols : list string)
 Definition spec_ok (c : case) : bool :=
   match c with
   | CTx f b o_res o_calls o_escaped => tx_allowed f b o_res o_calls o_escaped
-  | COrm rows_mode strict sh cols rows o_status o_dest => spec_orm rows_mode strict sh cols rows o_status o_dest
+  | COrm via m sh cols rows o_status o_dest o_tx =>
+      (* the row-mapping clauses hold on every entry point; strictness is the method name's *)
+      spec_orm (rows_mode m) (spec_strict m) sh cols rows o_status o_dest &&
+      (* inside a transaction: a failing (or panicking) query leads to Rollback and is reported,
+         a successful one to Commit *)
+      match o_tx with
+      | None => negb (in_tx via)
+      | Some (r, cs, esc) =>
+          in_tx via &&
+          tx_allowed no_faults (body_of_query o_status) r cs (if esc then Some 0 else None)
+      end
   end.
